@@ -734,15 +734,16 @@ func pickEnding(r *vf.Rand, failNum, failDen int) string {
 
 func genSort(r *vf.Rand, big bool) Desc {
 	rt := &rowTypes[r.Intn(len(rowTypes))]
-	d := Desc{Mode: "sort", Typ: rt.name, NStreams: 1, DSeed: r.Uint64(), DMax: r.Pick([]int{1, 2, 5, 17, 64, 300})}
-	d.Canary = r.Pick([]int{1, 1, 2, 3, 5, 8, 16, 64, 256})
+	d := Desc{Mode: "sort", Typ: rt.name, NStreams: 1, DSeed: r.Uint64(), DMax: r.Pick([]int{1, 2, 5, 17, 64, 300}), Ops: []Op{}}
+	d.Canary = r.Pick([]int{1, 1, 2, 2, 3, 5, 8, 16, 64, 256})
 	d.Batch = r.Pick([]int{1, 1, 2, 3, 4, 7, 16, 128})
 	d.Target = r.Pick([]int{1, 2, 7, 30, 100, 400, 1000, 4000})
 	maxRows := 70
 	if big {
 		maxRows = 700
 	}
-	n := r.Pick([]int{0, 1, 2, r.Range(0, 12), r.Range(0, maxRows), r.Range(0, maxRows), d.Canary, 2 * d.Canary, 3*d.Canary + 1})
+	n := r.Pick([]int{0, 1, r.Range(0, 12), r.Range(0, maxRows), r.Range(0, maxRows), r.Range(0, maxRows), r.Range(0, maxRows),
+		d.Canary, 2 * d.Canary, 3*d.Canary + 1})
 	if n > maxRows {
 		n = maxRows
 	}
@@ -795,7 +796,7 @@ func genMerge(r *vf.Rand, reduce, big bool) Desc {
 			break
 		}
 	}
-	d := Desc{Mode: "merge", Typ: rt.name, DSeed: r.Uint64(), DMax: r.Pick([]int{1, 2, 5, 17, 64, 300})}
+	d := Desc{Mode: "merge", Typ: rt.name, DSeed: r.Uint64(), DMax: r.Pick([]int{1, 2, 5, 17, 64, 300}), Ops: []Op{}}
 	d.NStreams = r.Pick([]int{0, 1, 2, 2, 3, 3, 5, 9})
 	maxRows, maxChunk := 30, 0
 	if big {
@@ -838,6 +839,15 @@ func signature(d Desc, o observed) string {
 		}
 	}
 	return sig
+}
+
+func hasEmptyRead(d Desc) bool {
+	for _, op := range d.Ops {
+		if op.K == "rows" && len(op.Rows) == 0 {
+			return true
+		}
+	}
+	return false
 }
 
 func nontrivial(d Desc, o observed) string {
@@ -890,10 +900,10 @@ func main() {
 			os.Exit(2)
 		}
 	} else {
-		n := 300
+		n := 600
 		big := false
 		if opts.Tier == "thorough" {
-			n, big = 3000, true
+			n, big = 6000, true
 		}
 		n *= opts.Scale
 		root := vf.NewRand(opts.Seed)
@@ -911,7 +921,7 @@ func main() {
 			}
 		}
 	}
-	leftover := 0
+	leftover, outside := 0, 0
 	for _, d := range descs {
 		if d.DMax < 1 {
 			d.DMax = 1
@@ -928,11 +938,17 @@ func main() {
 		for _, e := range ents {
 			os.RemoveAll(filepath.Join(tmp, e.Name()))
 		}
+		kind := d.Mode + "/" + d.Typ
+		if d.Mode != "sort" && hasEmptyRead(d) {
+			// the property excludes empty reads for merge inputs: model comparison only
+			kind += "+empty-reads(model-only)"
+			outside++
+		}
 		out.Add(vf.Case{Term: caseTerm(d, o), Desc: d, Sig: signature(d, o), Nontriv: nontrivial(d, o),
-			Kind:     d.Mode + "/" + d.Typ,
+			Kind:     kind,
 			Observed: map[string]interface{}{"create": o.create, "reads": len(o.reads), "runs": o.lens, "leftover_files": o.left, "note": o.note}})
 	}
-	out.Extra = map[string]interface{}{"leftover_spill_files": leftover}
+	out.Extra = map[string]interface{}{"leftover_spill_files": leftover, "cases_outside_quantifier_model_only": outside}
 	if err := out.Write(opts.Out, opts); err != nil {
 		fmt.Fprintln(os.Stderr, err)
 		os.Exit(2)
